@@ -33,10 +33,14 @@ class TableCost(BaseCost):
 
 
 class TableSaving(BaseSaving):
-    def __init__(self, table=None):
+    def __init__(self, table=None, n_params_per_variable=1):
         self.table = table
+        self.n_params_per_variable = n_params_per_variable
         super().__init__()
         self._t = np.asarray(table, dtype=float)
+
+    def get_param_size(self, p):
+        return self.n_params_per_variable * p
 
     def _fit(self, X, y=None):
         return self
